@@ -451,6 +451,7 @@ func checkC17(r *Run) {
 		c.st.Evals++
 		c.st.Transitions++
 		c.st.States++
+		c.st.Outcomes[cs.Mode.Name]++
 		if len(cs.Items) > 0 {
 			c.st.Nontrivial++
 		}
